@@ -23,28 +23,28 @@ PROCESSING = ("svgdx::events::tagify_events", "svgdx::transform::process_tags", 
 
 
 def run(prog, chk):
-    bypass(prog, chk)
-    X.check_sinks(prog, chk)  # attribute values / text are held unescaped: the writer must escape unconditionally
+    chk.rule(bypass, prog, chk)
+    chk.rule(X.check_sinks, prog, chk)  # attribute values / text are held unescaped: the writer must escape unconditionally
     # the raw comment sink only matters for *generated* comments (F13, a C02/C05 matter); passed-through comments are the input's own
     chk.obs = [o for o in chk.obs if not (o["key"].startswith("A11.sink/") and o["key"].endswith(":from_escaped:comment"))]
-    X.check_readers(prog, chk)
-    X.text_bypass(prog, chk)
-    stable_sort(prog, chk)
-    normalisations(prog, chk)
-    real_svg_scan(prog, chk)
-    reader_defaults(prog, chk)
-    passthrough_str_ops(prog, chk)
-    top_level_predicate(prog, chk)
-    qualified_names(prog, chk)
-    attrmap_keys_verbatim(prog, chk)
-    writer_is_read_only(prog, chk)
-    graphics_vocabulary(prog, chk)
-    inner_events_guard(prog, chk)
-    no_precheck(prog, chk)
-    unreadable_tag_stays_raw(prog, chk)
-    clip_lookup_needs_a_box(prog, chk)
+    chk.rule(X.check_readers, prog, chk)
+    chk.rule(X.text_bypass, prog, chk)
+    chk.rule(stable_sort, prog, chk)
+    chk.rule(normalisations, prog, chk)
+    chk.rule(real_svg_scan, prog, chk)
+    chk.rule(reader_defaults, prog, chk)
+    chk.rule(passthrough_str_ops, prog, chk)
+    chk.rule(top_level_predicate, prog, chk)
+    chk.rule(qualified_names, prog, chk)
+    chk.rule(attrmap_keys_verbatim, prog, chk)
+    chk.rule(writer_is_read_only, prog, chk)
+    chk.rule(graphics_vocabulary, prog, chk)
+    chk.rule(inner_events_guard, prog, chk)
+    chk.rule(no_precheck, prog, chk)
+    chk.rule(unreadable_tag_stays_raw, prog, chk)
+    chk.rule(clip_lookup_needs_a_box, prog, chk)
     from props import strops
-    strops.check_for(prog, chk, "C03")  # A14.str-ops: how this property's strings are cut up is a reviewed, frozen inventory
+    chk.rule(strops.check_for, prog, chk, "C03")  # A14.str-ops: how this property's strings are cut up is a reviewed, frozen inventory
 
 
 def clip_lookup_needs_a_box(prog, chk):
